@@ -67,6 +67,8 @@ class Verifier(ExprMixin, CallMixin, StmtMixin, BuiltinsMixin, EngineBase):
         self.failed_models: List[Tuple[Obligation, Dict[str, Any]]] = []
         self.param_vals: Dict[str, Any] = {}
         self.loop_contracts: Dict[Tuple[str, int], Any] = {}
+        self.cross_check = False
+        self.cross: List[Dict[str, Any]] = []
 
     def reset_path(self, decisions):
         super().reset_path(decisions)
@@ -97,8 +99,9 @@ class Verifier(ExprMixin, CallMixin, StmtMixin, BuiltinsMixin, EngineBase):
             self.use_class(L)
             self.use_class(D)
             cid = smt.cls_of(Val.r(v))
-            return z3.Or(Val.is_none(v), Val.is_bool(v), Val.is_int(v), Val.is_flt(v), Val.is_str(v),
-                         z3.And(Val.is_ref(v), Val.r(v) >= 0, z3.Or(cid == L.cid, cid == D.cid)))
+            return z3.And(smt.isjson(v),
+                          z3.Or(Val.is_none(v), Val.is_bool(v), Val.is_int(v), Val.is_flt(v), Val.is_str(v),
+                                z3.And(Val.is_ref(v), Val.r(v) >= 0, z3.Or(cid == L.cid, cid == D.cid))))
         if spec == 'str':
             return Val.is_str(v)
         if spec == 'int':
@@ -131,7 +134,13 @@ class Verifier(ExprMixin, CallMixin, StmtMixin, BuiltinsMixin, EngineBase):
         return z3.And(Val.is_ref(v), Val.r(v) >= 0, self.sub_term(cid, K), self.sub_chain(cid, K))
 
     def sub_chain(self, cid, K: ClassInfo):
-        return z3.And(*[self.sub_term(cid, b) for b in K.mro()])
+        """cid is a subclass of K: subclass facts up the mro, and cid is either one of the library's own
+        subclasses of K or a class unknown to the library (open universe: ids in a reserved range)"""
+        known = self.subclasses.get(K.qualname, [K])
+        for k in known:
+            self.use_class(k)
+        universe = z3.Or(*[cid == k.cid for k in known], z3.And(cid < -100_000, cid > -900_000))
+        return z3.And(universe, *[self.sub_term(cid, b) for b in K.mro()])
 
     def assume_type(self, v, spec: str) -> None:
         self.assume(self.type_formula(v, spec))
@@ -454,6 +463,8 @@ class Verifier(ExprMixin, CallMixin, StmtMixin, BuiltinsMixin, EngineBase):
                 result = pr
                 c = self.class_of(pr.exc)
                 outcome = f'raise:{c.name if c is not None else "?"}'
+            if self.cross_check:
+                self.do_cross_check(fi, ct, outcome, res)
             if outcome == 'return':
                 self.check_return(fi, ct, vals, result)
             else:
@@ -469,6 +480,23 @@ class Verifier(ExprMixin, CallMixin, StmtMixin, BuiltinsMixin, EngineBase):
             return PathRecord(tuple(self.decisions), 'unsupported', f'stray control signal {type(s).__name__}')
         except z3.Z3Exception as ex:
             return PathRecord(tuple(self.decisions), 'unsupported', f'z3 error: {ex}')
+
+    def path_info(self) -> Dict[str, Any]:
+        return dict(params=dict(self.param_vals), old=self.old, statics=dict(self.path_statics),
+                    dict_probes=list(self.dict_probes), attr_reads=list(self.attr_reads))
+
+    def do_cross_check(self, fi: FuncInfo, ct: Contract, outcome: str, res: FuncResult) -> None:
+        """CPython cross-check of the encoding: a model of this path's condition is concretised and the
+        real function is run on it; the native outcome class must be the one predicted here."""
+        from .replay import replay
+        key = (outcome, tuple(self.decisions[:self.pos]))
+        s = self._sync_solver()
+        if s.check() != z3.sat:
+            return
+        rep = replay(self, fi, ct, s.model(), self.path_info())
+        rec = {'predicted': outcome, 'native': rep.get('outcome'), 'status': rep.get('status'),
+               'inputs': rep.get('inputs'), 'detail': rep.get('detail')}
+        self.cross.append(rec)
 
     def check_return(self, fi: FuncInfo, ct: Contract, vals: Dict[str, Any], result) -> None:
         env = dict(vals)
